@@ -482,6 +482,55 @@ def stream_paths(ctx: Ctx) -> Stream:
 
 
 # ---------------------------------------------------------------------------------------------
+# stream writer: file/writer.py alone
+
+
+def stream_writer(ctx: Ctx) -> Stream:
+	"""`Writer(path).put(…)….flush()` replaces the file as a whole — the model's `World.write` (model line `wwrite`): sequences of
+	writes of random lengths / contents (long then short, empty, non-ASCII, several `put`s) to a few paths, read back after each."""
+	from rogw.tranp.file.writer import Writer
+	rng = ctx.sub_rng('writer')
+	base = os.path.realpath(ctx.tmpdir('tranp-c06-writer-'))
+	cases = []
+	alphabet = ['a', 'b', '\n', '}', 'é', 'あ', '\U0001F600', ' ', '\t', '/', '0']
+	for ci in range(ctx.scale(40, 400)):
+		paths = [os.path.join(base, f'c{ci}', *rng.choice([['x.h'], ['sub', 'x.h'], ['sub', 'deep', 'y.hpp'], ['z']])) for _ in range(rng.randint(1, 2))]
+		ops: list[str] = []
+		real: list[str] = []
+		prev: dict[str, int] = {}
+		for _ in range(rng.randint(2, 6)):
+			p = rng.choice(paths)
+			n = rng.choice([0, 1, 3, 20, 200, max(prev.get(p, 0) - rng.randint(1, 5), 0), prev.get(p, 0) + rng.randint(1, 9)])
+			pieces = [''.join(rng.choice(alphabet) for _ in range(k)) for k in _split_len(rng, n)]
+			try:
+				w = Writer(p)
+				for piece in pieces:
+					w.put(piece)
+				w.flush()
+				with open(p, 'rb') as f:
+					out = f'ok {hx(f.read())}'
+			except Exception as e:  # noqa: BLE001 - the outcome class is the observation
+				out = common.exc_enum(e)
+			text = ''.join(pieces)
+			prev[p] = len(text)
+			ops.append(f'wwrite\t{hx(p)}\t{hx(text)}')
+			real.append(out)
+		kinds = []
+		cases.append(({'kind': 'writer', 'n': len(ops)}, ops, real))
+	shutil.rmtree(base, ignore_errors=True)
+	st = correspond_skip('writer', cases, classify=lambda d, r: [f"writes:{d['n']}"])
+	st.note = 'the real Writer (put … flush) on temporary paths, shorter-after-longer contents, empty and non-ASCII texts, nested new directories; read back as bytes after every flush'
+	return st
+
+
+def _split_len(rng: random.Random, n: int) -> list[int]:
+	if n == 0 or rng.random() < 0.5:
+		return [n]
+	k = rng.randint(0, n)
+	return [k, n - k]
+
+
+# ---------------------------------------------------------------------------------------------
 # stream metafile: which file module_meta_factory hashes
 
 
@@ -581,6 +630,12 @@ def module_source(name: str, imports: list[str], variant: int) -> str:
 	return '\n'.join(lines)
 
 
+def with_extras(source: str, name: str, extras: int) -> str:
+	"""`extras` further functions after the module's fixed part (an edit can make the module — and its output — longer or shorter)."""
+	n = ident(name)
+	return source + ''.join(f"\ndef x{i}_{n}(a: int) -> int:\n\tb = a + {i}\n\treturn b * {i + 2}\n" for i in range(extras))
+
+
 def closure(graph: dict[str, list[str]], m: str) -> set[str]:
 	out: set[str] = set()
 	stack = list(graph[m])
@@ -672,6 +727,7 @@ class RealCase:
 		self.shape = shape
 		self.graph = graph_shapes()[shape]
 		self.variants = dict(variants)
+		self.extras: dict[str, int] = {}
 		self.packages = sorted({m.split('.')[0] for m in self.graph})
 		root = os.path.realpath(ctx.tmpdir('tranp-c06-'))
 		globs = [m.replace('.', '/') + '.py' for m in MODULE_ORDER[shape]] if shape in MODULE_ORDER else [f'{p}/**/*.py' for p in self.packages]
@@ -701,12 +757,13 @@ class RealCase:
 		proj.__class__ = self.proj.__class__		# tproj.Project.clone builds a plain Project: keep the template-aware write_config
 		c.variants = dict(self.variants)
 		c.vers = dict(self.vers)
+		c.extras = dict(self.extras)
 		c.written_with = {k: dict(v) for k, v in self.written_with.items()}
 		c.foreign = set(self.foreign)
 		return c
 
 	def source(self, m: str) -> str:
-		return module_source(m, self.graph[m], self.variants[m])
+		return with_extras(module_source(m, self.graph[m], self.variants[m]), m, self.extras.get(m, 0))
 
 	def token(self, m: str) -> str:
 		return hashlib.md5(self.source(m).encode('utf-8')).hexdigest()
@@ -803,6 +860,11 @@ class RealCase:
 			self.proj.config_extra = self.force_line(op[1])
 			self.proj.write_config()
 			return f"setforce\t{'none' if op[1] is None else ('true' if op[1] else 'false')}", self.observe('ok', [], [])
+		if kind == 'resize':
+			# the module gets `op[2]` extra functions: growing and shrinking edits (for the model an edit like any other)
+			self.extras[op[1]] = int(op[2])
+			self.proj.write_module(op[1], self.source(op[1]))
+			return f'edit\t{hx(op[1])}\t{hx(self.token(op[1]))}', self.observe('ok', [], [])
 		if kind == 'setver':
 			self.vers[op[1]] = op[2]
 			return f'setver\t{op[1]}\t{hx(op[2])}', self.observe('ok', [], [])
@@ -903,6 +965,10 @@ def gen_variants(rng: random.Random, graph: dict[str, list[str]]) -> dict[str, i
 def next_op(rng: random.Random, case: RealCase, with_put: bool = True, with_force: bool = True, with_dirs: bool = True, with_ver: bool = True) -> list[Any]:
 	r = rng.random()
 	mods = list(case.graph)
+	if r < 0.08:
+		m = rng.choice(mods)
+		cur = case.extras.get(m, 0)
+		return ['resize', m, rng.choice([k for k in (0, 1, 2, 4) if k != cur])]
 	if r < 0.26:
 		m = rng.choice(mods)
 		v = rng.randrange(N_VARIANTS) if rng.random() < 0.7 else (case.variants[m] + 1) % 4 + 4 * (case.variants[m] // 4)
@@ -1119,6 +1185,21 @@ def probe_fixpoint(ctx: Ctx, case: RealCase, again: list[str] | None = None) -> 
 	return out[0], out[1]
 
 
+def fresh_forced(ctx: Ctx, case: RealCase) -> tuple[str, dict[str, bytes]]:
+	"""What a forced run WOULD WRITE for the current sources and settings: the same project state (sources, config, caches) with
+	every output file removed first, then `run -f`."""
+	clone = case.adopt(case.proj.clone(os.path.realpath(ctx.tmpdir('tranp-c06-fresh-'))))
+	try:
+		for rel in clone.proj.output_files():
+			os.unlink(os.path.join(clone.proj.root, rel))
+		status = clone.run(True)[0]
+		files = clone.proj.output_files()
+	except Exception as e:  # noqa: BLE001 - rule 14
+		status, files = f'oracle-exception:{common.exc_enum(e)}', {}
+	clone.dispose()
+	return status, files
+
+
 def cold_forced(ctx: Ctx, case: RealCase) -> dict[str, bytes]:
 	clone = case.adopt(case.proj.clone(os.path.realpath(ctx.tmpdir('tranp-c06-cold-'))))
 	clone.proj.clear_cache()
@@ -1179,7 +1260,7 @@ def fixpoint_history(ctx: Ctx, rng: random.Random, res: SearchResult, hist: Coun
 		if i == total or (ops is None and done and done[-1][0] != 'run' and rng.random() < 0.45):
 			if budget[0] <= 0 and plan is None:
 				break
-			budget[0] -= 3
+			budget[0] -= 4
 			again: list[str] = []
 			a, b = probe_fixpoint(ctx, case, again)
 			res.cases += 1
@@ -1190,6 +1271,23 @@ def fixpoint_history(ctx: Ctx, rng: random.Random, res: SearchResult, hist: Coun
 				# generated modules are valid and the configuration is well-formed: a forced run has to succeed
 				res.findings.append(Finding(key=f'run-fails:{b[0]}', what=f'forced run over a valid project fails with {b[0]} (plain run: {a[0]})', replay=replay))
 				hist[f'finding:run-fails'] += 1
+				break
+			# every output equals what a forced run would write: reference = forced run of the same state into an emptied output tree
+			fst, fresh = fresh_forced(ctx, case)
+			off = sorted(rel for rel in fresh if b[1].get(rel) != fresh[rel]) if fst == 'ok' else []
+			if fst != 'ok' or off:
+				if fst != 'ok':
+					key, why = f'run-fails:{fst}', f'forced run into an emptied output tree fails with {fst}'
+				else:
+					rel = off[0]
+					on_disk = b[1].get(rel, b'')
+					tail = len(on_disk) > len(fresh[rel]) and on_disk.startswith(fresh[rel])
+					key = 'output-stale-tail' if tail else 'output-differs-from-fresh-forced'
+					why = (f'{rel} after a forced run over the existing outputs ({len(on_disk)} bytes) differs from the forced run into an emptied output tree '
+						f'({len(fresh[rel])} bytes)' + (f': the fresh text is a proper prefix, {len(on_disk) - len(fresh[rel])} bytes of an older, longer output are left behind it'
+						if tail else f'; {_first_diff(on_disk, fresh[rel])}'))
+				res.findings.append(Finding(key=key, what=why, replay=replay))
+				hist[f'finding:{key}'] += 1
 				break
 			wrong = header_hash_wrong(case, b[1])
 			if wrong:
@@ -1228,6 +1326,14 @@ def fixpoint_history(ctx: Ctx, rng: random.Random, res: SearchResult, hist: Coun
 
 
 DIRECTED_PLANS: list[dict[str, Any]] = [
+	# a release with another TRANSPILER version after a run (the application version is the corpus case fixpoint-version-change.json)
+	{'search': 'fixpoint', 'shape': 'chain2', 'variants': {'app.a': 0, 'app.b': 0}, 'dirs': ['./out'], 'lang': 'cpp:h',
+		'ops': [['run', 0], ['setver', 'py2cpp', '1.0.1']]},
+	# growing then shrinking edits: the regenerated output is shorter than the file on disk (an imported module and its dependant)
+	{'search': 'fixpoint', 'shape': 'chain2', 'variants': {'app.a': 4, 'app.b': 1}, 'dirs': ['./out'], 'lang': 'cpp:h',
+		'ops': [['resize', 'app.b', 3], ['run', 0], ['resize', 'app.b', 0], ['edit', 'app.b', 0], ['run', 0]]},
+	{'search': 'fixpoint', 'shape': 'flat3', 'variants': {'app.a': 1, 'app.b': 2, 'lib.a': 3}, 'dirs': ['out'], 'lang': 'cpp:h',
+		'ops': [['resize', 'lib.a', 2], ['run', 1], ['resize', 'lib.a', 0]]},
 	# an output path changes its owner (same-named modules in two packages) between two plain runs; both mappings are injective
 	{'search': 'fixpoint', 'shape': 'flat3', 'variants': {'app.a': 0, 'app.b': 1, 'lib.a': 2}, 'dirs': ['app/:out/', 'rest/'], 'lang': 'cpp:h',
 		'ops': [['run', 0], ['setdirs', ['lib/:out/', 'rest/']]]},
@@ -1246,7 +1352,7 @@ def search_fixpoint(ctx: Ctx) -> SearchResult:
 	res = SearchResult('files_after(history + [run]) == files_after(history + [run -f]): both runs on clones of one project state (sources, outputs, caches)')
 	hist: Counter[str] = Counter()
 	seen: set[str] = set()
-	budget = [ctx.scale(70, 1100)]
+	budget = [ctx.scale(80, 1300)]
 	with ctx.timed('search_fixpoint'):
 		for rec in load_corpus():
 			if rec.get('search') == 'fixpoint':
@@ -1482,7 +1588,7 @@ STATEMENTS = {
 	'header_slice': "for every header, body and every prefix in which the tag does not start, the text try_from_content hands to from_json is exactly ' ' + to_json()",
 	'header_rt': "try_from_content(pre + to_header_str() + '\\n' + body) == header, given that json.loads decodes this header's JSON (parser not modelled)",
 	'header_rt_no_newline_counterexample': 'without a line break after the header line the slice loses the closing brace (find() = -1 is taken as an end bound by rfind): statement false',
-	'generated_shapes': 'the statements of can_transpile / MetaHeader (__eq__, identity, to_json, __init__, from_json, to_header_str, try_from_content) / module_meta_factory / Py2Cpp.meta / try_load_meta_header / _run_impl / Config.force, read from the source by the translator on every run, are the ones the model implements',
+	'generated_shapes': 'the statements of can_transpile / MetaHeader (__eq__, identity, to_json, __init__, from_json, to_header_str, try_from_content) / module_meta_factory / Py2Cpp.meta / try_load_meta_header / _run_impl / Config.force / Writer (__init__, put, flush, _flush), read from the source by the translator on every run, are the ones the model implements',
 	'compared_fields_generated': 'the header the model builds has exactly the generated compared fields (version, module.hash, module.path, transpiler.version, transpiler.module) and they carry the current inputs',
 	'skip_implies_equal_header_inputs': 'a skipped module has a parsable stored header with the identity of the current header; with md5 collision-free on the two texts and json.loads decoding them every generated compared field equals the current input',
 	'shipped_versions_nonempty': 'the version constants read from data/version.py are non-empty (the VersNonEmpty hypothesis holds for the shipped release)',
@@ -1507,7 +1613,7 @@ STATEMENTS = {
 
 
 def build_streams(ctx: Ctx) -> list[Stream]:
-	return [stream_strprims(ctx), stream_header(ctx), stream_paths(ctx), stream_metafile(ctx), stream_runner(ctx)]
+	return [stream_strprims(ctx), stream_header(ctx), stream_paths(ctx), stream_metafile(ctx), stream_writer(ctx), stream_runner(ctx)]
 
 
 def build_searches(ctx: Ctx) -> list[SearchResult]:
@@ -1550,6 +1656,7 @@ def run(ctx: Ctx) -> int:
 		},
 		assumptions=[
 			'md5 is collision-free on the header texts of a history (IdInj, in Sound) and — only for fixpoint_partial — on the sources (HashInj)',
+			'Writer.put/flush = whole-content write: a flush replaces the file by the buffer (model World.write) — tied by the writer stream and pinned by generated_shapes (open(..., mode=\'wb\'))',
 			'version strings are non-empty (an empty Versions.app would be replaced on reading: `app_version or Versions.app`)',
 			'deps m over-approximates the modules whose source the output of m reads (OutDeps); the forced run can transpile the stale modules',
 			"json.loads decodes the headers the runner itself writes (hypothesis LoadsSound; the JSON parser is not modelled)",
